@@ -192,8 +192,6 @@ Definition ruby_bad (n : cnode) : bool :=
   | _ => false
   end.
 Definition trig_ruby (l : list cnode) : bool := existsb (any_node ruby_bad) l.
-(* 8 cue-without-payload *)
-Definition trig_empty (l : list cnode) : bool := is_nil (print_cue_text l).
 
 Definition text_finding (l : list cnode) : Z :=
   if trig_ruby l then 7 else if trig_annot l then 4 else if trig_ts l then 5 else if trig_charref l then 6 else 0.
@@ -242,23 +240,23 @@ Fixpoint sharing (cs : list cue) (ps : list para) : bool :=
 
 (* an exception aborts the whole file; it is excused only if some cue of the file carries a construct on which
    a recorded finding makes the parser raise: bad ruby structure (7); `&` in an annotation, after which the
-   end tag leaves the paragraph (4); a timestamp span that then receives a ruby (5); no payload (8) *)
+   end tag leaves the paragraph (4); a timestamp span that then receives a ruby (5) *)
 Definition has_ruby (l : list cnode) : bool :=
   existsb (any_node (fun x => match x with CRuby _ => true | _ => false end)) l.
 Definition exc_finding (cs : list cue) : Z :=
   if existsb (fun c => trig_ruby (c_payload c)) cs then 7
   else if existsb (fun c => trig_annot (c_payload c)) cs then 4
   else if existsb (fun c => (0 <? count_ts_list (c_payload c)) && has_ruby (c_payload c)) cs then 5
-  else if existsb (fun c => trig_empty (c_payload c)) cs then 8 else 0.
+  else 0.
 
 Definition judge (f : vfile) (txt : text) (o : outcome) : list (Z * Z) :=
   if negb (text_eqb (print_file f) txt) then [(1, 0)] else
-  let cs := cues_of f in
+  let cs := shown_cues f in
   match o with
   | Raised _ => [(2, exc_finding cs)]
   | OkDoc rs ps =>
     if negb (length ps =? length cs)%nat
-    then [(3, if existsb (fun c => trig_empty (c_payload c)) cs then 8 else 0)]
+    then [(3, 0)]
     else judge_cues 0 rs cs ps ++ (if sharing cs ps then [] else [(40, 0)])
   end.
 (* per case: (clause, finding) pairs; the harness reads the printed list *)
